@@ -334,8 +334,14 @@ def run(ctx):
         ctx.bridge('translator: pull shapes of the generator functions (%d programs, one per function and operand)' % info3['functions'], True)
     except Exception as e:   # noqa
         ctx.bridge('translator: pull shapes extracted', False, repr(e))
-    ctx.prove(['PetlProofs.Props.C02', 'PetlProofs.Props.C02Shape'],
-              REQUIRED + ['Petl.C02.pull_shapes_as_expected', 'Petl.C02.bounded_never_scans_ahead', 'Petl.C02.bounded_functions_never_scan_ahead'])
+    from translators import fingerprints as _fp
+    try:
+        _fpi = _fp.generate()
+        ctx.bridge('translator: fingerprints of the petl sources this check vouches for (%d entries over all properties)' % _fpi['names'], True)
+    except Exception as e:   # noqa
+        ctx.bridge('translator: source fingerprints extracted', False, repr(e))
+    ctx.prove(['PetlProofs.Props.C02', 'PetlProofs.Props.C02Shape', 'PetlProofs.Snapshot.C02'],
+              REQUIRED + ['Petl.Snapshot.C02_sources_as_validated', 'Petl.C02.pull_shapes_as_expected', 'Petl.C02.bounded_never_scans_ahead', 'Petl.C02.bounded_functions_never_scan_ahead'])
     rng = ctx.rng
     ops = catalog(etl)
     N1, N2 = 1000, 10000
